@@ -157,6 +157,30 @@ theorem mapOpenErr_go_noNode (t : Tree) (rootSegs : List Str) (parts : List Str)
         · exact .inr rfl
         · exact .inl rfl
 
+theorem mapOpenErrN_go_noNode (t : Tree) (rootSegs : List Str) (parts : List Str) :
+    ∀ fuel k, mapOpenErrN.go t rootSegs parts k fuel = .invalid ∨ mapOpenErrN.go t rootSegs parts k fuel = .notExist := by
+  intro fuel
+  induction fuel with
+  | zero => intro k; left; simp [mapOpenErrN.go]
+  | succ f ih =>
+    intro k
+    unfold mapOpenErrN.go
+    split
+    · exact .inl rfl
+    · split
+      · exact ih (k + 1)
+      · split
+        · exact ih (k + 1)
+        · exact .inr rfl
+        · exact .inl rfl
+
+theorem ioOpenN_inside (t : Tree) (rootSegs : List Str) (n : Str) :
+    ioOpenN t rootSegs n = .invalid ∨ ioOpenN t rootSegs n = ioOpen t rootSegs n := by
+  unfold ioOpenN
+  split
+  · exact .inl rfl
+  · exact .inr rfl
+
 /-- **C16_fsopen_inside** — whatever name the middleware passes, each of the modelled
     `http.FileSystem`s (`http.Dir`, `http.FS` over a validating `fs.FS`, `http.FS(MapFS)`) resolves
     it to a node below its own root or to an error: the second line of defence. -/
@@ -185,6 +209,24 @@ theorem C16_fsopen_inside (kind : FsKind) (t : Tree) (rootSegs : List Str) (name
       | notExist => exact .inr (.inl rfl)
       | file id => exact .inr (.inr ⟨L, hL, by rw [← h, hr]⟩)
       | dir d => exact .inr (.inr ⟨L, hL, by rw [← h, hr]⟩)
+  | httpDirFS =>
+    simp only [fsOpen]
+    generalize hn : (if name = ['/'] then dot else trimPrefixC '/' name) = n
+    have hmap : Inside t rootSegs (mapOpenErrN t rootSegs n) := by
+      simp only [mapOpenErrN]
+      rcases mapOpenErrN_go_noNode t rootSegs (splitOn '/' n) (splitOn '/' n).length 0 with h' | h'
+      · exact .inl h'
+      · exact .inr (.inl h')
+    rcases ioOpenN_inside t rootSegs n with h | h
+    · rw [h]; exact hmap
+    · rw [h]
+      rcases ioOpen_inside t rootSegs n with h | ⟨L, hL, h⟩
+      · rw [h]; exact hmap
+      · cases hr : ioOpen t rootSegs n with
+        | invalid => exact hmap
+        | notExist => exact .inr (.inl rfl)
+        | file id => exact .inr (.inr ⟨L, hL, by rw [← h, hr]⟩)
+        | dir d => exact .inr (.inr ⟨L, hL, by rw [← h, hr]⟩)
   | httpMapFS =>
     simp only [fsOpen]
     generalize hn : (if name = ['/'] then dot else trimPrefixC '/' name) = n
@@ -386,6 +428,7 @@ theorem C16_serves_clean_path (cfg : MwCfg) (t : Tree) (rs : List Str) (F : List
     (hkind : cfg.kind = .httpDir) (hroot : cfg.root = dot) (hib : cfg.ignoreBase = false)
     (hF : ∀ s ∈ F, Normal s) (hne : F ≠ []) (hpct : '%' ∉ joinSep '/' F)
     (hutf : utf8Valid (('/' :: joinSep '/' F).map Char.toNat) = true)
+    (hnul : hasNul ('/' :: joinSep '/' F) = false)
     (hfile : look t (rs ++ F) = .file id)
     (hreq : (if hasSuffix cPath ['*'] then star else urlPath) = (if lead then ['/'] else []) ++ joinSep '/' F) :
     mw cfg t rs cPath star urlPath next = ([joinSep '/' F], .file id) := by
@@ -405,7 +448,7 @@ theorem C16_serves_clean_path (cfg : MwCfg) (t : Tree) (rs : List Str) (F : List
     have hseg : segsOf ('/' :: joinSep '/' F) = F := by
       have := segsOf_render true F hF (.inr rfl)
       simpa [render] using this
-    simp [hseg, hfile]
+    simp [hseg, hfile, hnul]
   unfold mw
   simp only [hreq, hun, hname]
   unfold mwServe
@@ -710,6 +753,7 @@ example : mw ⟨dot, S "index.html", true, true, false, .httpDir⟩ exTree [S "p
     (S "dir/b.txt") (S "/static/dir/b.txt") .notFound = ([S "dir/b.txt"], .file 2) :=
   C16_serves_clean_path _ exTree [S "public"] [S "dir", S "b.txt"] 2 _ _ _ _ false rfl rfl rfl
     (by decide +kernel) (by decide +kernel) (by decide +kernel) (by decide +kernel) (by decide +kernel) (by decide +kernel)
+    (by decide +kernel)
 
 -- fs.ValidPath is what keeps Echo.Static inside: `..` survives Clean of a relative name
 example : staticDir exTree [S "public"] (S "/%2e%2e/secret") (S "/assets/../secret") = ([S "../secret"], .notFound404) ∧
